@@ -18,7 +18,9 @@ CASE_TIMEOUT = 5.0
 MODEL_CASE_TIMEOUT = 5.0
 RULE = ("scenarios (all 16 combinations of SINGLE_WRITER / SINGLE_READER / READ_BUSY_LOOP / MSG_READ_ONCE incl. the "
         "rejected one, optionally with the deprecated 0x04 bit; requested capacity 2..8 (rounded 2/4/8); 1..3 writers x 1..3 readers "
-        "(1 where the flag promises a single one); 1..4 messages per writer; reader indices started at 2^32-3 (or 0, or "
+        "(1 where the flag promises a single one); 1..4 messages per writer; in half of the scenarios some or all messages "
+        "carry adversarial pointer values (NULL, (void*)-1, small integers = ring positions/cursor values, addresses of the "
+        "ring's blocks / the ring, repeated values) instead of the address of their own payload object; reader indices started at 2^32-3 (or 0, or "
         "2^32-3-k*cap) so that the 32-bit index wraps; harness throttle on) x seeded random schedules (context-switch "
         "density 20/50/80 %; for the futex-sleeping reader modes two thirds of the schedules also interrupt would-block "
         "futex waits with EINTR at 15/30/60 % and wake them spuriously at 0/20 %) run on the real code under the "
@@ -47,6 +49,15 @@ ASSUMPTIONS = [
     "read-once readers all use read-once mode",
 ]
 EVIDENCE_NOTES = [
+    "message values: the driver sends adversarial pointer values as messages in every reader mode (NULL, (void*)-1, "
+    "small integers equal to 1 / ring positions / cursor values / capacity, addresses of the ring's own blocks and of "
+    "the ring object, the same value several times; counts per kind under input_distribution value-*); the monitor "
+    "judges by VALUE: read #k of a reader returns exactly the value of the k-th published message and never blocks "
+    "once it exists (scheduler DEADLOCK / LIVELOCK = violation with the schedule as replay).  Justification for "
+    "sampling values: ring_delivery_value_independent / ring_trace_value_independent (the model is parametric in the "
+    "values) plus the additional obligation rb_code_never_compares_payload, which is a heuristic SOURCE SCAN of "
+    "ring_buffer.c run in gen_params on every check (comparisons whose operand is x->data, a local assigned from it or "
+    "the data argument); it is a textual scan, not a proof about the C code",
     "all listed theorems are proved in full (no _partial left): rb_payload_visible covers every writer/reader mode "
     "including read-once (read_cursor under read_mutex); rb_once_positions states that a reader's positions strictly "
     "increase and that every taken position is returned or pending with exactly one reader; rb_throttle_no_lap "
@@ -65,6 +76,70 @@ SITES = [  # (params field, discovery scenario, op, cell)
 MO = {"rlx": "Rlx", "con": "Con", "acq": "Acq", "rel": "Rel", "acqrel": "AcqRel", "sc": "SeqCst", "none": "MoNone"}
 TWO32 = 1 << 32
 F_SW, F_SR, F_BUSY, F_ONCE = 0x01, 0x02, 0x08, 0x10
+
+
+# pointer values a message can carry (codes shared with c02_driver.c): a message is an opaque void*
+V_NULL, V_MINUS1, V_RING = -2, -3, -2000
+
+
+def v_int(n):
+    return -10 - n
+
+
+def v_block(k):
+    return -1000 - k
+
+
+def val_kind(code):
+    if code >= 0:
+        return "own-object"
+    if code == V_NULL:
+        return "NULL"
+    if code == V_MINUS1:
+        return "(void*)-1"
+    if code == V_RING:
+        return "&ring"
+    if -265 <= code <= -11:
+        return "small-int"
+    if -2000 < code <= -1000:
+        return "&blocks[k]"
+    return "other"
+
+
+def scan_payload_comparisons(repo=None):
+    """Cheap source scan (an ADDITIONAL obligation, not a proof): the ring must treat message values as opaque.
+    Returns the lines of ring_buffer.c in which a payload value (an expression ending in .data / ->data, a local
+    assigned from one, or the `data` parameter of the write functions) is an operand of a comparison."""
+    path = os.path.join(repo or V.REPO, "muggle/c/sync/ring_buffer.c")
+    txt = open(path).read()
+    txt = re.sub(r"/\*.*?\*/", lambda m: "\n" * m.group(0).count("\n"), txt, flags=re.S)
+    txt = re.sub(r"//[^\n]*", "", txt)
+    txt = txt.replace("->", ".")
+    # crude function split: top-level '{' ... '}' blocks together with the header before them
+    depth, start, funcs = 0, 0, []
+    for i, ch in enumerate(txt):
+        if ch == "{":
+            if depth == 0:
+                start = max(txt.rfind(";", 0, i), txt.rfind("}", 0, i)) + 1
+            depth += 1
+        elif ch == "}":
+            depth -= 1
+            if depth == 0:
+                funcs.append((start, i + 1))
+    cmp_op = r"(?:==|!=|<=|>=|(?<![<>=!-])<(?![<=])|(?<![<>=!-])>(?![>=]))"
+    hits = []
+    for a, b in funcs:
+        body = txt[a:b]
+        tainted = set(re.findall(r"\b(\w+)\s*=\s*[^=;]*\.data\b", body))
+        if re.search(r"void\s*\*\s*data\s*\)", body.split("{")[0]):
+            tainted.add("data")
+        operand = r"(?:[\w\]\[.]*\.data\b" + "".join(r"|\b%s\b" % re.escape(t) for t in sorted(tainted)) + ")"
+        pat = re.compile(r"%s\s*\)*\s*%s|%s\s*(?:\([^()]*\)\s*)?\(*\s*%s" % (operand, cmp_op, cmp_op, operand))
+        line0 = txt.count("\n", 0, a)
+        for k, ln in enumerate(body.split("\n")):
+            if pat.search(ln):
+                hits.append("%d: %s" % (line0 + k + 1, ln.strip()))
+    return hits
 
 
 def build_impl(ctx):
@@ -122,6 +197,9 @@ def gen_params(ctx):
             fields.append("%s := %s" % (field, MO.get(next(iter(mos)), "MoNone")))
     if len(table) != 32:
         notes.append("(* flag -> mode table: %d of 32 rows observed *)" % len(table))
+    hits = scan_payload_comparisons()
+    for h in hits:
+        notes.append("(* payload compared in ring_buffer.c line %s *)" % h.replace("*)", "* )"))
     rows = "; ".join("(%d, %d, %d, %d)" % (f, rc, wm, rm) for f, rc, wm, rm in table)
     txt = ("(* generated by lib/props/c02.py from the memory orders observed at each atomic site of\n"
            "   ring_buffer.c / spinlock.c and from the flag -> mode table computed by\n"
@@ -129,7 +207,10 @@ def gen_params(ctx):
            "From MV Require Import C02.Model.\nLocal Open Scope Z_scope.\n" + "\n".join(notes) + ("\n" if notes else "") +
            "Definition code_params : params :=\n  {| " + ";\n     ".join(fields) + " |}.\n"
            "(* (flag, init return value, write_mode, read_mode); -1 = not set *)\n"
-           "Definition code_mode_table : list (Z * Z * Z * Z) :=\n  [" + rows + "].\n")
+           "Definition code_mode_table : list (Z * Z * Z * Z) :=\n  [" + rows + "].\n"
+           "(* source scan of ring_buffer.c: number of lines in which a payload value (x->data, a local assigned from\n"
+           "   it, the data argument) is an operand of a comparison; the ring must treat messages as opaque *)\n"
+           "Definition code_payload_comparisons : nat := %d.\n" % len(hits))
     return txt
 
 
@@ -167,8 +248,26 @@ def _scenario(rng, throttle, flag=None):
     else:
         quotas = [total] * nr
         idx = [(base - cap * rng.range(0, 2)) % TWO32 for _ in range(nr)]
-    return ["rb %d %d %d %d" % (flag, capreq, throttle, pre), "w " + " ".join(map(str, wc)),
-            "r " + " ".join("%d:%d" % (q, i) for q, i in zip(quotas, idx))]
+    lines = ["rb %d %d %d %d" % (flag, capreq, throttle, pre), "w " + " ".join(map(str, wc)),
+             "r " + " ".join("%d:%d" % (q, i) for q, i in zip(quotas, idx))]
+    # adversarial message values (about half of the scenarios): NULL, (void*)-1, small integers equal to ring
+    # positions / cursor values / 1, the address of the ring's own blocks and of the ring, repeated identical values
+    if rng.chance(1, 2):
+        nmsg = total + pre
+        pool = [V_NULL, V_MINUS1, V_MINUS1, v_int(1), v_int(rng.range(1, cap)), v_int(cap), v_block(rng.below(cap)),
+                v_block(0), V_RING]
+        vals = {}
+        for _ in range(rng.range(1, max(1, min(4, nmsg)))):
+            vals[rng.below(nmsg)] = rng.choice(pool)
+        if rng.chance(1, 3) and nmsg >= 2:          # the same value several times in a row
+            c0, a0 = rng.choice(pool), rng.below(nmsg - 1)
+            vals[a0] = c0
+            vals[a0 + 1] = c0
+        if rng.chance(1, 6):                         # every message is a special value
+            for i in range(nmsg):
+                vals.setdefault(i, rng.choice(pool))
+        lines.append("v " + " ".join("%d:%d" % (i, vals[i]) for i in sorted(vals)))
+    return lines
 
 
 def _mk(name, scen, sched):
@@ -202,6 +301,19 @@ def corpus_cases(ctx):
     cs.append(_mk("corpus-eintr-once", ["rb 16 2 1 0", "w 2 2", "r 2:0 2:0"], "rand 93 30 0 0 60 20"))
     cs.append(_mk("corpus-eintr-list", ["rb 0 4 1 1", "w 2", "r 2:4294967293"],
                   "list f0,w1,f2, 1 1 1 1 1 1 1 1 1 1 1 1 0 0 0 0 0 0 0 0 1 1 1 1 1 1 1 1"))
+    # adversarial message values: (void*)-1, NULL, small integers, ring addresses, repeats - in every reader mode
+    for k, (flag, nm) in enumerate([(0, "wait"), (2, "singlewait"), (8, "busy"), (16, "once"), (9, "single-busy")]):
+        rd = "r 2:0 3:0" if flag == 16 else ("r 5:4294967293" if flag in (2, 9) else "r 5:4294967293 5:4294967293")
+        pre = 0 if flag == 16 else 1
+        wl = "w 5" if flag == 9 else "w 2 %d" % (3 if flag == 16 else 2)
+        if flag == 9:
+            rd, pre, wl = "r 5:4294967293", 1, "w 5"
+        elif flag != 16:
+            wl = "w 2 3"
+        cs.append(_mk("corpus-values-%s" % nm, ["rb %d 4 1 %d" % (flag, pre), wl, rd,
+                                                "v 1:-3 2:-2 3:-11 4:-1001 5:-3"], "rand %d 40 0 0" % (300 + k)))
+    cs.append(_mk("corpus-values-repeat", ["rb 0 2 1 1", "w 3 2", "r 5:4294967293", "v 0:-3 1:-3 2:-3 3:-12 4:-12 5:-2000"],
+                  "rand 311 30 0 0 30 0"))
     corp = os.path.join(V.VERIF, "corpus", ID)
     if os.path.isdir(corp):
         for f in sorted(os.listdir(corp)):
@@ -311,6 +423,18 @@ def _parse_case(case):
     return rb, w, r
 
 
+def _parse_vals(case):
+    vals = {}
+    for ln in case.lines:
+        t = ln.split()
+        if t and t[0] == "v":
+            for e in t[1:]:
+                i, c = e.split(":")
+                if int(c) < 0:
+                    vals[int(i)] = int(c)
+    return vals
+
+
 def monitor(case, lines):
     if any(ln.strip() == "modes" for ln in case.lines):
         return _mon_modes(lines)
@@ -338,7 +462,7 @@ def monitor(case, lines):
     want = "F cap=%d wmode=%d rmode=%d" % (cap, mode[0], mode[1])
     if len(f) < 2 or f[1] != want:
         return "mode/capacity: expected %r, got %r" % (want, f[1] if len(f) > 1 else None)
-    return _mon_trace(lines, cap, mode, throttle, pre, wc, rq)
+    return _mon_trace(lines, cap, mode, throttle, pre, wc, rq, _parse_vals(case))
 
 
 def _mon_modes(lines):
@@ -355,7 +479,9 @@ def _mon_modes(lines):
     return None
 
 
-def _mon_trace(lines, cap, mode, throttle, pre, wc, rq):
+def _mon_trace(lines, cap, mode, throttle, pre, wc, rq, vals=None):
+    vals = vals or {}
+    val = lambda mid: vals.get(mid, mid)      # the pointer value message mid carries (own object = its id)
     nw, nr = len(wc), len(rq)
     once = mode[1] == 3
     log = list(range(pre))              # publication-order log (message ids)
@@ -373,7 +499,15 @@ def _mon_trace(lines, cap, mode, throttle, pre, wc, rq):
         if not w:
             continue
         if w[0] in ("DEADLOCK", "LIVELOCK"):
-            bad = bad or "scheduler reported %s" % ln
+            why = "scheduler reported %s" % ln
+            if not once:
+                for i, t in enumerate(range(nw, nw + nr)):
+                    k = len(got[t])
+                    if k < rq[i][0] and pre + k < len(log):
+                        why += "; reader %d never returns from read #%d although the %d-th message (id %d, value %d = %s) is published" % (
+                            t, k, pre + k, log[pre + k], val(log[pre + k]), val_kind(val(log[pre + k])))
+                        break
+            bad = bad or why
             break
         if w[0] == "X":
             exited.add(int(w[1]))
@@ -407,18 +541,19 @@ def _mon_trace(lines, cap, mode, throttle, pre, wc, rq):
                 last_got[t] = mid
                 if not once and precond and bad is None:
                     pos = pre + k
-                    if mid < 0:
-                        bad = "reader %d read #%d returned NULL (or a pointer that is no message) instead of blocking until the %d-th message exists" % (t, k, pos)
-                    elif pos >= len(log):
-                        bad = "reader %d returned from read #%d (message %d) before the %d-th message was published" % (t, k, mid, pos)
-                    elif mid < 0:
-                        bad = "reader %d read #%d returned NULL (or a pointer that is no message) instead of blocking until the %d-th message exists" % (t, k, pos)
-                    elif log[pos] != mid:
-                        bad = "reader %d read #%d returned message %d, the %d-th published message is %d" % (t, k, mid, pos, log[pos])
+                    if pos >= len(log):
+                        bad = "reader %d returned from read #%d (value %d = %s) before the %d-th message was published" % (t, k, mid, val_kind(mid) if mid != -1 else "no message value", pos)
+                    elif mid != val(log[pos]):
+                        if mid == -1:
+                            bad = "reader %d read #%d returned a pointer that is no message value at all, the %d-th message carries %d" % (t, k, pos, val(log[pos]))
+                        else:
+                            bad = "reader %d read #%d returned value %d, the %d-th published message (id %d) carries %d (%s)" % (
+                                t, k, mid, pos, log[pos], val(log[pos]), val_kind(val(log[pos])))
             elif w[2] == "pay":
                 mid = last_got.get(t, -1)
-                if precond and bad is None and int(w[3]) != mid * 7 + 3:
-                    bad = "reader %d received message %d but sees payload %s instead of %d" % (t, mid, w[3], mid * 7 + 3)
+                want = mid * 7 + 3 if mid >= 0 else -1
+                if precond and bad is None and int(w[3]) != want:
+                    bad = "reader %d received message %d but sees payload %s instead of %d" % (t, mid, w[3], want)
     if not precond:
         if throttle:
             return "harness fault: throttle on but the no-lapping precondition was violated in the trace"
@@ -434,13 +569,11 @@ def _mon_trace(lines, cap, mode, throttle, pre, wc, rq):
             mid = got[t][k]
             if pos >= n:
                 return "read-once reader %d took position %d (message %d) before it was published" % (t, pos, mid)
-            if log[pos] != mid:
-                if mid in seq:
+            if val(log[pos]) != mid:
+                if mid >= 0 and mid in seq:
                     return "read-once: message %d delivered twice (to reader %d at position %d)" % (mid, t, pos)
-                return "read-once: position %d delivered message %d to reader %d, write order has %d (loss or reordering)" % (pos, mid, t, log[pos])
+                return "read-once: position %d delivered value %d to reader %d, write order has message %d carrying %d (loss, duplication or reordering)" % (pos, mid, t, log[pos], val(log[pos]))
             seq.append(mid)
-        if len(set(seq)) != len(seq):
-            return "read-once: duplicate delivery"
         if len(seq) != sum(q for q, _ in rq):
             return "read-once: %d results for %d requested reads" % (len(seq), sum(q for q, _ in rq))
     else:
@@ -488,6 +621,13 @@ def tally(dist, case, lines):
             dist["futex_spurious_wake"] = dist.get("futex_spurious_wake", 0) + 1
         elif ln.startswith("DEADLOCK") or ln.startswith("LIVELOCK"):
             dist["neg-" + ln.split()[0].lower()] = dist.get("neg-" + ln.split()[0].lower(), 0) + 1
+    for code in _parse_vals(case).values():
+        dist["value-" + val_kind(code)] = dist.get("value-" + val_kind(code), 0) + 1
+    if _parse_vals(case):
+        dist["cases-with-special-values"] = dist.get("cases-with-special-values", 0) + 1
+        vs = list(_parse_vals(case).values())
+        if len(set(vs)) < len(vs):
+            dist["cases-with-repeated-value"] = dist.get("cases-with-repeated-value", 0) + 1
     if rq and any(i + q >= TWO32 for q, i in rq if q > 0):
         dist["index-wrap"] = dist.get("index-wrap", 0) + 1
 
